@@ -198,7 +198,7 @@ Section Once.
       induction ms as [|m ms IH]; intros rs acc Hin H; cbn [group_loop]; [exact H|].
       pose proof (recd_once rs m (Hin m (or_introl eq_refl)) H) as H1.
       destruct (recd rs h m) as [rs1 [a|e|]]; cbn [fst] in *; try exact H1.
-      destruct a; try exact H1. apply IH; [intros x Hx; apply Hin; right; exact Hx|exact H1].
+      destruct a; try exact H1; (apply IH; [intros x Hx; apply Hin; right; exact Hx|exact H1]).
     Qed.
 
     Lemma o_dep_value rs d : Once c F rs -> Once c F (fst (dep_value recd rs h d)).
